@@ -703,6 +703,11 @@ func runC02(r *Run) {
 		}
 	}
 	fe.Done()
+
+	// ---- the reported list is the list of this input only (shared with C08.reset)
+	rs := r.Rule("C02.reset", "on every path of Decode the attribute list is emptied before anything is appended to its previous content and before every successful return: the reported TLV list is that of this input, not of a previously decoded one", 1)
+	checkDecodeReset(r, rs, dm, FieldVar(msg, "Attributes"))
+	rs.Done()
 }
 
 func sortedKeysI(m map[string]ssa.Instruction) []string {
